@@ -24,9 +24,22 @@ def materialise(desc):
     elif fam == 'flat':
         sc, prm = flat_okta_case(rng, k)
     elif fam == 'bimodal':
+        near = None
+        if k.get('near'):
+            near = float(rng.choice([100, 150, 250, 400]))
         sc = scenes.bimodal_group_scene(rng, order=k.get('order'), nce=k.get('nce', 1),
-                                        third=k.get('third', False), converge=k.get('converge', False))
+                                        third=k.get('third', False), converge=k.get('converge', False),
+                                        coincident=k.get('coincident', False),
+                                        sep=None if near is None else near * float(rng.uniform(0.95, 1.6)))
         prm = {'call': base_prms(rng, sc, k), 'glob': {}}
+        if near is not None:        # component separation close to the (single-bin) minimum separation
+            prm['call']['MIN_SEP_LIMS'] = []
+            prm['call']['MIN_SEP_VALS'] = [near]
+    elif fam == 'tiecut':
+        sc = scenes.tie_cut_scene(rng, order=k.get('order'))
+        prm = {'call': {'BASE_LVL_LOOKBACK_PERC': sc.pop('lookback'),
+                        'BASE_LVL_HEIGHT_PERC': float(rng.choice([0, 0, 1, 100])),
+                        'MIN_SEP_VALS': [100.0], 'MIN_SEP_LIMS': []}, 'glob': {}}
     elif fam == 'chain':
         sc = scenes.close_chain_scene(rng, order=k.get('order'), nce=k.get('nce'))
         prm = {'call': base_prms(rng, sc, k), 'glob': {}}
@@ -38,6 +51,14 @@ def materialise(desc):
         prm = scenes.gen_prms(rng, sc, rich=k.get('rich', False))
     else:
         raise ValueError('unknown family ' + fam)
+    if k.get('index') == 'concat':
+        # index labels as produced by pd.concat of per-ceilometer frames (non-unique labels)
+        cnt = {}
+        idx = []
+        for r in sc['rows']:
+            idx.append(cnt.get(r[0], 0))
+            cnt[r[0]] = idx[-1] + 1
+        sc['index'] = idx
     if 'prm_over' in k:
         prm['call'] = scenes.deep_merge(prm['call'], k['prm_over'])
     eff = obs.effective(prm)
